@@ -587,6 +587,27 @@ class Renderer:
                     runs[-1].append(e)
                 else:
                     runs.append([e])
+            # /Index subsections are disjoint but need not be ascending (e.g. a writer that lists the xref
+            # stream's own entry first): any order, single-entry and adjacent subsections included
+            mode = rev.opts.get('index_order')
+            if mode is None:
+                mode = r.choice(['asc', 'asc', 'shuffle', 'shuffle', 'reverse', 'self_first', 'singles'])
+            if mode == 'singles':
+                runs = [[e] for run in runs for e in run]
+                r.shuffle(runs)
+            elif mode == 'shuffle':
+                r.shuffle(runs)
+            elif mode == 'reverse':
+                runs.reverse()
+            elif mode == 'self_first':
+                mine = [run for run in runs if any(e[0] == xid[0] for e in run)]
+                if mine:
+                    run = mine[0]
+                    runs.remove(run)
+                    me = [e for e in run if e[0] == xid[0]]
+                    lo = [e for e in run if e[0] < xid[0]]
+                    hi = [e for e in run if e[0] > xid[0]]
+                    runs = [me] + [x for x in (lo, hi) if x] + runs
         flat = [e for run in runs for e in run]
         # field values
         rows = []
